@@ -645,3 +645,11 @@ PROPS["C13"]["rule"] += _OVERLAP % "address" + " Histories contain steps that ch
 PROPS["C14"]["rule"] += _OVERLAP % "address"
 PROPS["C15"]["rule"] += _OVERLAP % "route"
 PROPS["C16"]["rule"] += " The builder keeps the option objects of the previous RA of each case and their rendering: building the next RA must not change them."
+
+PROPS["C08"]["rule"] += " One transmission latency in four lies between 2 s and 120 s (sampled set also 2 s + 1 ns, 5 s, 31 s, 300 s; matrix also 6 s): a raw-socket write has no deadline; the harness waits accordingly."
+PROPS["C12"]["rule"] += " One received prefix option in three has a preferred lifetime drawn without regard to its valid lifetime (also above it): other routers are not bound by our parser's rules."
+PROPS["C18"]["rule"] += " Many-senders sub-check (60 / 3 000 cases): 1..2 000 distinct senders or 17, 64, 255, 256, 257, 300, 1 000, 1 025 (thorough also 4 097, 20 000, 65 537), three address styles, each heard once with a message cycling through generated templates, then the usual hosts and members of the crowd again; every series compared with the model at the end."
+PROPS["C07"]["rule"] += " One solicitation burst in four is a crowd: 2, 5, 40, 70 or 300 solicitations at one instant, each from another host."
+PROPS["C11"]["rule"] += " Close latencies also 5 s + 1 ns, 11 s, 31 s, 91 s."
+PROPS["C10"]["rule"] += " Close latencies also 5 s + 1 ns, 11 s, 31 s, 91 s."
+PROPS["C20"]["rule"] += " Tasks take 1 ns, 1 s, 5 s + 1 ns, 11 s, 30 s, 31 s, 91 s or 301 s to return after cancellation."
